@@ -26,7 +26,7 @@ RULE = ('ff-model: abstract .ff files with 0-3 blocks, 0-4 links, 0-2 modificati
         'patterns, features, non-edges, molmeta, edges, order given by prefix / attribute / both), serialised with random legal '
         'layout and loaded by read_ff; compared with the model; non-trivial = at least 3 top-level sections of at least 2 kinds '
         'with a link that is not the last top-level section, or a macro defined in one section and used in a later one. '
-        'ff-faults: each listed fault injected at a generated position of a valid file; non-trivial = the faulty line is not in '
+        'ff-faults: each listed fault injected at a generated position of a valid file (a duplicated block atom is the same line again, the same name under another residue number, or under another residue number, atom type and charge group); non-trivial = the faulty line is not in '
         'the first top-level section. ff-snippets: literal documented examples. '
         + ' '.join([c13_itp.RULE_TEXT, c13_map.RULE_TEXT, c13_mapping.RULE_TEXT]))
 ASSUMPTIONS = [
